@@ -3,6 +3,7 @@ import VaxisModel.Model.ImageFit
 import VaxisModel.Model.ImageTerm
 import VaxisModel.Model.Blocks
 import VaxisModel.Model.Placements
+import VaxisModel.Model.ImageDraw
 import VaxisModel.Spec.Images
 
 /-! Driver for C20.  Lines (`op<TAB>impl` → `model-canon<TAB>impl-canon<TAB>verdict`), see
@@ -298,6 +299,7 @@ structure St where
   cur : List Placement := []
   prev : List Placement := []
   pending : Bool := true
+  implNext : Nat := 0                   -- entries of the implementation's next-frame list after the previous op
 
 def St.img? (s : St) (n : Nat) : Option (Nat × KImg) :=
   match s.imgs.findIdx? (·.1 == n) with
@@ -399,6 +401,10 @@ def resizeVerdict (xpix cols ypix rows wPix hPix : Nat) (w h : Int) (impl : Stri
   | _ => ("FAIL unparsable result", 0, 0)
 
 
+/-- `vx.Window().New(c, r, ww, wh)` in C11's window model. -/
+def targetWin (s : St) (c r : Nat) (ww wh : Int) : VaxisModel.Model.Window.Win :=
+  VaxisModel.Model.Window.Win.new (.root 0 0 s.cols s.rows) c r ww wh
+
 def kstep (s : St) (op : List String) (impl : String) : St × String :=
   match op with
   | ["knew", c, r, x, y] =>
@@ -436,11 +442,14 @@ def kstep (s : St) (op : List String) (impl : String) : St × String :=
       match s.img? n with
       | none => (s, bad)
       | some (id, k) =>
-        -- `Sixel.Draw`: nothing without data; not drawn if larger than the window
+        -- model: `Sixel.Draw`'s gates as regenerated from the source (nothing without data; not drawn if larger than
+        -- the window), on the window `Window().New(c, r, ww, wh)` of C11's model
+        let win := targetWin s c r ww wh
+        let ps := if ImageDraw.drawnWith VaxisModel.Gen.ImageConsts.sixelGates k.hasData false k.mw k.mh win
+                  then (Placements.step s.ps (.draw ⟨id, c, r, k.mw, k.mh⟩)).1 else s.ps
+        -- oracle side (independent): the frame holds the placement iff the image has data and fits
         let width := childExtent c ww s.cols
         let height := childExtent r wh s.rows
-        let ps := if k.hasData ∧ (k.mw : Int) ≤ width ∧ (k.mh : Int) ≤ height
-                  then (Placements.step s.ps (.draw ⟨id, c, r, k.mw, k.mh⟩)).1 else s.ps
         let cur := if k.hasData ∧ (k.iw : Int) ≤ width ∧ (k.ih : Int) ≤ height
                    then s.cur ++ [⟨id, c, r, k.iw, k.ih⟩] else s.cur
         ({ s with ps := ps, cur := cur }, s!"{snap ps}\t{impl}\t-")
@@ -467,12 +476,20 @@ def kstep (s : St) (op : List String) (impl : String) : St × String :=
       match s.img? n with
       | none => (s, bad)
       | some (id, k) =>
-        let ps := (Placements.step s.ps (.draw ⟨id, c, r, k.mw, k.mh⟩)).1
-        let s' := { s with ps := ps, cur := s.cur ++ [⟨id, c, r, k.iw, k.ih⟩] }
-        -- oracle: a drawn placement must lie inside its window (`KittyImage.Draw` has no size test: F120)
+        -- model: `KittyImage.Draw`'s gates as regenerated from the source (since the F120 repair: not placed if larger
+        -- than the window), on the window `Window().New(c, r, ww, wh)` of C11's model
+        let win := targetWin s c r ww wh
+        let ps := if ImageDraw.drawnWith VaxisModel.Gen.ImageConsts.kittyGates true false k.mw k.mh win
+                  then (Placements.step s.ps (.draw ⟨id, c, r, k.mw, k.mh⟩)).1 else s.ps
+        -- oracle (independent of the model): a drawn placement must lie inside its window (F120), and the frame
+        -- holds the placement iff the image fits
         let width := childExtent c ww s.cols
         let height := childExtent r wh s.rows
-        let drawn := (getField impl "N").any fun l => l.any fun e => e.startsWith s!"{id}@{c},{r}:"
+        let cur := if (k.iw : Int) ≤ width ∧ (k.ih : Int) ≤ height then s.cur ++ [⟨id, c, r, k.iw, k.ih⟩] else s.cur
+        let s' := { s with ps := ps, cur := cur }
+        -- drawn = the implementation's next-frame list grew by this op (an older entry with the same id and
+        -- origin may still be there when the frame was not cleared)
+        let drawn := (getField impl "N").any fun l => l.length > s.implNext
         let verdict :=
           if impl = "panic" then "FAIL panic"
           else if drawn ∧ ((k.iw : Int) > width ∨ (k.ih : Int) > height) then
@@ -583,7 +600,11 @@ def step (s : St) (line : String) : St × String :=
         | none => (s, bad)
       | _, _, _ => (s, bad)
     else (s, bad)
-  | op => if op.head?.any (fun o => o.startsWith "k" || o.startsWith "s") then kstep s op impl else (s, bad)
+  | op =>
+    if op.head?.any (fun o => o.startsWith "k" || o.startsWith "s") then
+      let (s', out) := kstep s op impl
+      ({ s' with implNext := match getField impl "N" with | some l => l.length | none => s'.implNext }, out)
+    else (s, bad)
 
 def main : IO Unit := foldLoop ({} : St) step
 
